@@ -154,6 +154,38 @@ def run():
     for k in pending:
         rep.undecided_add({"program": info[k][0]["text"], "group": k[1],
                            "why": "solver parses differ from the engine's parse on 4 successive witnesses"})
+    # index mapping on solver-chosen paths: matched().get(i) is the regex's group i, None where the
+    # group does not participate, None beyond the last group. Witnesses: a matched path, and for
+    # every group a matched path that has NO parse in which that group participates.
+    wtasks = []
+    for i, r in enumerate(usable):
+        row = r["row"]
+        wtasks.append(((i, 0), member(inter(row["smt"], "WF"))))
+        for g in row.get("groups", []):
+            wtasks.append(((i, g["index"]), member(inter("WF", diff(row["smt"], cat(g["left"], g["sub"], g["right"]))))))
+    wres = ses.solve(wtasks, keep_unsat=False)
+    by_prog = {}
+    for (i, gi), (status, w, _) in wres.items():
+        if status == "sat":
+            by_prog.setdefault(i, set()).add(w)
+    order = sorted(by_prog)
+    wax_rows = probe([{"op": "match", "target": {"glob": usable[i]["text"]}, "paths": sorted(by_prog[i])} for i in order])
+    raw_rows = probe([{"op": "match", "target": {"re": usable[i]["row"]["re"]}, "paths": sorted(by_prog[i])} for i in order])
+    mapping_checked = 0
+    for i, wr, rr in zip(order, wax_rows, raw_rows):
+        if not (wr and wr.get("ok") and rr and rr.get("ok")):
+            continue
+        n = len(usable[i]["row"]["caps"])
+        for p, a, b in zip(sorted(by_prog[i]), wr["results"], rr["results"]):
+            mapping_checked += 1
+            ses.replayed += 1
+            want = (b.get("caps") or [])
+            want = want + [None] * (n + 2 - len(want)) if b.get("caps") is not None else None
+            got = a.get("caps") if a.get("matched") else None
+            if (want is None) != (got is None) or (want is not None and got[:len(want)] != want[:len(got)]):
+                rep.candidate({"capture-index-mapping"},
+                              {"short": {"program": usable[i]["text"], "path": p,
+                                         "matched_get": got, "regex_groups": want}})
     # between-capture clause (relang/between.py)
     import between
     structured = [r for r in usable if (len(r["row"].get("groups", [])) == len(r["row"]["caps"])
@@ -175,7 +207,7 @@ def run():
     return ses.finish(len({k[0] for k in info}), {
         "capture_groups_checked": len(info), "structure_checked": structural,
         "programs_unspecified": unspecified, "confirmed_outside": confirmed, "generated": stats,
-        "between": bstats,
+        "between": bstats, "index_mapping_paths_checked": mapping_checked,
         "functions_encoded": ["encode::encode (Grouping)", "Glob::captures", "MatchedText::get",
                                "From<regex::Captures> for MatchedText"]})
 
